@@ -357,7 +357,7 @@ func run(prop, tier string, seed uint64) int {
 					// the child's watchdog ended that case and reported it; go on with the
 					// next one, but give up on the batch at the second hang (each costs minutes)
 					hangs++
-					if hangs >= 2 {
+					if hangs >= 1 {
 						return
 					}
 					from = hung + 1
